@@ -682,6 +682,23 @@ def functions_known(c, *dicts):
     return z3.ForAll([i], z3.Implies(in_range(i, F.n), z3.And(*[d.has(F.elems[i]) for d in dicts])), patterns=[F.elems[i]])
 
 
+def _counters(c, lu, direct):
+    """The bookkeeping counters of the coupled system: linear resolutions counted by the caller-specific clause, the others kept
+    (one more LU factorization with the LU option)."""
+    s0, s1 = c.old.self, c.new.self
+    return [("mode-counters-kept", z3.And(s1.n_direct_modes == s0.n_direct_modes, s1.n_adjoint_modes == s0.n_adjoint_modes)),
+            ("factorizations-counted", s1.lu_fact == s0.lu_fact + (1 if lu else 0))]
+
+
+def _kept(inv, lu=0):
+    """inv + the counters the loop does not touch (the loops modify `self`: the resolution counter)."""
+    def f(c, k):
+        s0, s1 = c.old.self, c.new.self
+        return inv(c, k) + [("mode-counters-kept", z3.And(s1.n_direct_modes == s0.n_direct_modes, s1.n_adjoint_modes == s0.n_adjoint_modes)),
+                            ("factorizations-counted", s1.lu_fact == s0.lu_fact + lu)]
+    return f
+
+
 def _direct_inv0(c, k):
     """Column j < k of dy_dx is the solution of (dR/dy) y_j = -(dR/dx)_j."""
     A, B = mterm(c.old.dres_dy), mterm(c.old.dres_dx)
@@ -708,10 +725,11 @@ class DirectMode(Contract):
     targets = (CS + "._direct_mode",)
     prop = ("C07",)
     c07 = "ring"
+    lu = False
     params = {"functions": NAMES, "n_variables": TInt, "n_couplings": TInt, "dres_dx": TRing, "dres_dy": TRing, "dfun_dx": MATS, "dfun_dy": MATS, "linear_solver": TStr}
     returns = JACS
     modifies = ("self",)
-    loops = {0: LoopSpec(anchor="range(n_variables)", modifies=("dy_dx", "self.linear_problem", "self"), inv=_direct_inv0),
+    loops = {0: LoopSpec(anchor="range(n_variables)", modifies=("dy_dx", "self.linear_problem", "self"), inv=_kept(_direct_inv0)),
              1: LoopSpec(anchor="functions", modifies=("jac",), inv=_direct_inv1, local_types={"jac": JACS})}
 
     def requires(self, c):
@@ -727,15 +745,20 @@ class DirectMode(Contract):
     def ensures(self, c):
         A, B = mterm(c.old.dres_dy), mterm(c.old.dres_dx)
         F, jac = c.old.functions, c.result
-        DY = mterm(c.locals["dy_dx"])
         i = z3.Int("i!dm")
         f = F.elems[i]
         total = mneg(mmul(minv(A), B))
+        if "dy_dx" not in getattr(c, "locals", {}):
+            # the contract as a caller sees it (the local dy_dx is not visible)
+            return [("closed-form", z3.ForAll([i], z3.Implies(in_range(i, F.n), z3.And(jac.has(f), jac.vals[f] == closed_form(c.old.dfun_dx.vals[f], c.old.dfun_dy.vals[f], A, B))),
+                                              patterns=[F.elems[i]])),
+                    ("one-resolution-per-variable", c.new.self.n_linear_resolutions == c.old.self.n_linear_resolutions + c.old.n_variables)] + _counters(c, self.lu, True)
+        DY = mterm(c.locals["dy_dx"])
         return [
             ("dy_dx-is-minus-inverse-times-dres_dx", z3.Implies(ext_q(DY, total), DY == total)),
             ("closed-form", z3.ForAll([i], z3.Implies(z3.And(in_range(i, F.n), ext_q(DY, total)), z3.And(jac.has(f), jac.vals[f] == closed_form(c.old.dfun_dx.vals[f], c.old.dfun_dy.vals[f], A, B))))),
             ("one-resolution-per-variable", c.new.self.n_linear_resolutions == c.old.self.n_linear_resolutions + c.old.n_variables),
-        ]
+        ] + _counters(c, self.lu, True)
 
 
 # ---------------------------------------------------------------------------- adjoint mode
@@ -787,11 +810,12 @@ class AdjointMode(Contract):
     targets = (CS + "._adjoint_mode",)
     prop = ("C07",)
     c07 = "ring"
+    lu = False
     params = {"functions": NAMES, "dres_dx": TRing, "dres_dy_t": TRing, "dfun_dx": MATS, "dfun_dy": MATS, "linear_solver": TStr}
     returns = JACS
     modifies = ("self",)
-    loops = {0: LoopSpec(anchor="functions", modifies=("jac", "self.linear_problem", "self"), inv=_adjoint_outer, local_types={"jac": JACS}),
-             1: LoopSpec(anchor="range(dfunction_dy.shape[0])", modifies=("jac", "self.linear_problem", "self"), inv=_adjoint_inner)}
+    loops = {0: LoopSpec(anchor="functions", modifies=("jac", "self.linear_problem", "self"), inv=_kept(_adjoint_outer), local_types={"jac": JACS}),
+             1: LoopSpec(anchor="range(dfunction_dy.shape[0])", modifies=("jac", "self.linear_problem", "self"), inv=_kept(_adjoint_inner))}
 
     def requires(self, c):
         a = _adj(c)
@@ -808,7 +832,8 @@ class AdjointMode(Contract):
         jac = c.result
         i = z3.Int("i!am")
         f = a.F.elems[i]
-        return [("closed-form", z3.ForAll([i], z3.Implies(z3.And(in_range(i, a.F.n), ext_q(jac.vals[f], adjoint_total(a, f))), z3.And(jac.has(f), jac.vals[f] == adjoint_total(a, f)))))]
+        return [("closed-form", z3.ForAll([i], z3.Implies(z3.And(in_range(i, a.F.n), ext_q(jac.vals[f], adjoint_total(a, f))), z3.And(jac.has(f), jac.vals[f] == adjoint_total(a, f)))))] + \
+            _counters(c, self.lu, False)
 
 
 @register
